@@ -44,14 +44,15 @@ type bounds struct {
 	legal, legalBatch, bigs int
 	mut, mutBatch           int
 	bigSessions             int
+	defectSessions          int
 	drvReplies, drvBig      int
 }
 
 func boundsOf(tier string) bounds {
 	if tier == "thorough" {
-		return bounds{enumLen: 7, enumBatch: 8000, legal: 200000, legalBatch: 400, bigs: 24, mut: 200000, mutBatch: 2000, drvReplies: 20000, drvBig: 60, bigSessions: 150}
+		return bounds{enumLen: 7, enumBatch: 8000, legal: 200000, legalBatch: 400, bigs: 24, mut: 200000, mutBatch: 2000, drvReplies: 20000, drvBig: 60, bigSessions: 150, defectSessions: 400}
 	}
-	return bounds{enumLen: 6, enumBatch: 4000, legal: 8000, legalBatch: 100, bigs: 3, mut: 6000, mutBatch: 250, drvReplies: 1000, drvBig: 4, bigSessions: 24}
+	return bounds{enumLen: 6, enumBatch: 4000, legal: 8000, legalBatch: 100, bigs: 3, mut: 6000, mutBatch: 250, drvReplies: 1000, drvBig: 4, bigSessions: 24, defectSessions: 36}
 }
 
 // fixed witnesses: the inputs named in KNOWN_FINDINGS (repaired by 2ef9ad1) and a few boundary ones.
@@ -88,6 +89,10 @@ func gen(tier string, seed int64) []mon.Case {
 	for k := 0; k < b.bigSessions; k++ {
 		s := GenBigSession(r, k)
 		cs = append(cs, mon.MkCase(fmt.Sprintf("c02/bigbuf/%04d", k), Desc{Kind: "drv", Drv: &s}))
+	}
+	for k := 0; k < b.defectSessions; k++ {
+		s := GenDefectSession(r, k)
+		cs = append(cs, mon.MkCase(fmt.Sprintf("c02/defect/%04d", k), Desc{Kind: "drv", Drv: &s}))
 	}
 	for k, hs := range HashSessions() {
 		hs := hs
@@ -175,12 +180,14 @@ func init() {
 			"Driver level: real netconf.Driver over devsim.Conn + ncsim server, 1.0 and 1.1, Get/RPC/GetConfig, all segmentation policies plus forced read boundaries inside chunk headers, " +
 			"end markers and delimiters and between ]]>]]> and the LF that follows it; no read carries bytes of two server messages. Dedicated sub-families with placed read boundaries and controls: " +
 			"'bigbuf' (5-10 replies of 64-300 KiB per session, one huge chunk / 4 KiB chunks / PRNG chunkings, each followed at once by a notification or an unsolicited old-id reply, read delay 0/50/250 us), " +
+			"'defect' (1.1 sessions of 4-7 replies in which some replies have a defective chunk header - non-numeric, zero, too small, too large, negative, empty size - but end in the end-of-chunks marker, " +
+			"each followed by legal replies: the defective one must return Failed with a parse error and empty Result, not a time-out, and the later ones must decode), " +
 			"'reqopts' (full factorial exclude-header x force-self-closing-tags x preferred-version x version x echo off/marked/nomark/held; PRNG sessions draw the same options), " +
 			"'errforms' (every rpc-error opening-tag form x prefix x closing form, decoys; 1.0 and 1.1 in 1/7/all-byte chunks), " +
 			"'echowalk' (echoing server, no mark between echo and reply, whitespace-rich reply sent right after the request's last write; the read that completes the echo ends after k bytes of the framed reply, for every k, 1.0 and 1.1), " +
 			"'hash' (1.1 data lines / chunks starting with or equal to '##') and 'decl' (1.0, LF after the delimiter in a read of its own, next reply with declaration); fixed witness inputs. " +
 			"Non-trivial = (enum/mutation batch) the reference accepted at least one and rejected at least one input; (legal batch) at least one multi-chunk frame; " +
-			"(driver session) a read that carries echo bytes and reply bytes, a read boundary strictly inside a chunk header, the end-of-chunks marker or the 1.0 delimiter, or a reply >= 64 KiB followed at once by another server message. Distinct = distinct descriptor hash.",
+			"(driver session) a read that carries echo bytes and reply bytes, a read boundary strictly inside a chunk header, the end-of-chunks marker or the 1.0 delimiter, a reply >= 64 KiB followed at once by another server message, or a legal reply decoded after a defective one on the same session. Distinct = distinct descriptor hash.",
 		Assumptions: []string{
 			"payload alphabet excludes CR and ESC (the channel strips them by design); payloads are valid UTF-8",
 			"the XML declaration, when present, is spelled exactly <?xml version=\"1.0\" encoding=\"UTF-8\"?> and is the first bytes of the payload",
